@@ -344,7 +344,7 @@ pub fn run(ctx: &Ctx) -> Outcome {
     out.assumptions = vec![
         "unspecified corners (no Ok/Err claim, only agreement of both constructors and no panic): trailing rule with last transition at i64::MIN, with a switch instant outside i64, or at an instant where a DST rule cannot be evaluated (year outside i32::MIN+2..i32::MAX-2) or whose rule is 'overlapping'".into(),
     ];
-    let cases = ctx.tier.pick(12_000u32, 600_000u32);
+    let cases = ctx.tier.pick(40_000u32, 600_000u32);
     let strat = (prop_oneof![6 => gens::arb_zone(ZoneCfg { max_trans: 12, leaps: true, wide_times: true }), 1 => gens::arb_leap_adjacent_zone(), 1 => gens::arb_aligned_zone()], arb_defect()).prop_map(|(zone, defect)| ZoneCase { zone, defect });
     let rs = par_shards(16, |shard, st| pt_shard(ctx, "zone", shard, cases, &strat, st, check_zone));
     out.absorb_all(rs);
@@ -363,7 +363,7 @@ pub fn run(ctx: &Ctx) -> Outcome {
             leaps.sort();
             MZone { trans, types, leaps, trailer }
         });
-    let cases = ctx.tier.pick(12_000u32, 600_000u32);
+    let cases = ctx.tier.pick(40_000u32, 600_000u32);
     let rs = par_shards(16, |shard, st| pt_shard(ctx, "tuple", 100 + shard, cases, &tuple, st, |z, st| check_tuple(z, false, st)));
     out.absorb_all(rs);
     if out.failure.is_some() {
